@@ -18,18 +18,24 @@ Proof. unfold dead, quiet. intuition. Qed.
 Definition ph_ok (t : nat) (stream : bool) (dd : Prop) (p : phase) (r : resp) (rest : list tsym) : Prop :=
   match p with
   | PBodyLen n => n <> 0 /\ length rest = n
-  | PBodyChunked _ => exists rb, rest = tag t (map SBody rb ++ [STerm])
+  | PChunkSize _ => exists rb, rest = tag t (chunk_form rb)
+  | PChunkData _ n => n <> 0 /\ exists rb, rest = tag t (map SBody rb ++ [STerm]) /\ length rb = n
   | PBodyIdent _ => stream = false /\ h_fr (r_head r) = FIdent
   | PHold => stream = true /\ rest = []
   | PStreamLen n e => stream = true /\ length rest = n /\ (e = true -> n = 0 \/ dd)
-  | PStreamChunked e => stream = true /\
-      ((rest = [] /\ e = true) \/ ((exists rb, rest = tag t (map SBody rb ++ [STerm])) /\ (e = true -> dd)))
+  | PStreamChunked n e => stream = true /\
+      ((rest = [] /\ e = true) \/
+       ((e = true -> dd) /\
+        match n with
+        | 0 => exists rb, rest = tag t (chunk_form rb)
+        | S _ => exists rb, rest = tag t (map SBody rb ++ [STerm]) /\ length rb = n
+        end))
   | PStreamIdent _ => stream = true /\ h_fr (r_head r) = FIdent
   | PAcq | PHead => False
   end.
 
 Lemma ph_ok_mono t stream (dd dd' : Prop) p r rest : (dd -> dd') -> ph_ok t stream dd p r rest -> ph_ok t stream dd' p r rest.
-Proof. destruct p; cbn; intuition. Qed.
+Proof. destruct p as [ | | | | | | | |[|n] e| ]; cbn; intuition. Qed.
 
 Lemma tag_app t a b : tag t (a ++ b) = tag t a ++ tag t b.
 Proof. apply map_app. Qed.
@@ -65,14 +71,14 @@ Proof.
     - right. repeat split; auto. discriminate. }
   destruct (is_head k) eqn:Hk; [specialize (Hskip eq_refl); discriminate|].
   unfold wf_resp, body_syms in *. destruct (h_fr (r_head r)) eqn:Hfr.
-  - apply Nat.eqb_eq in Hwf. rewrite app_nil_r.
+  - apply Nat.eqb_eq in Hwf.
     destruct (too_large max n).
     + destruct stream; [|exact I]. split; [reflexivity|]. cbn. rewrite tag_length, map_length. intuition discriminate.
     + destruct n.
       * destruct (r_body r); [|discriminate]. cbn. split; [left; reflexivity|reflexivity].
       * split; [reflexivity|]. cbn. rewrite tag_length, map_length. intuition discriminate.
   - destruct stream; (split; [reflexivity|]); cbn.
-    + split; [reflexivity|]. right. split; [eexists; reflexivity|discriminate].
+    + split; [reflexivity|]. right. split; [discriminate|eexists; reflexivity].
     + eexists; reflexivity.
   - destruct stream; (split; [reflexivity|]); cbn; auto.
 Qed.
@@ -86,13 +92,18 @@ Lemma rd_body_ok t max skip stream dd p r tg sy rest :
   | RFail _ => True
   end.
 Proof.
-  intros H Hs. destruct p as [ | |n|cnt|cnt| |n e|e|e]; cbn in H, Hs; try discriminate; try contradiction.
+  intros H Hs. destruct p as [ | |n|cnt|cnt n|cnt| |n e|n e|e]; cbn in H, Hs; try discriminate; try contradiction.
   - destruct H as [Hn Hl]. cbn in Hl. cbn [rd_sym]. destruct n as [|[|l]]; [congruence| |].
     + destruct rest; [auto|discriminate].
     + cbn. split; [discriminate|]. lia.
   - destruct H as [rb H]. cbn [rd_sym]. destruct rb as [|b rb]; cbn in H.
     + injection H as -> -> <-. auto.
-    + injection H as -> -> ->. destruct (too_large max (S cnt)); [exact I|]. cbn. eexists; reflexivity.
+    + injection H as -> -> ->. destruct (too_large max (cnt + S (length rb))); [exact I|]. cbn.
+      split; [discriminate|]. exists (b :: rb). split; reflexivity.
+  - destruct H as (Hn & rb & H & Hl). cbn [rd_sym]. destruct rb as [|b rb]; [cbn in Hl; congruence|].
+    cbn in H. injection H as -> -> ->. cbn in Hl. destruct n as [|[|l]]; [congruence| |].
+    + destruct rb; [|discriminate]. cbn. exists []. reflexivity.
+    + cbn. split; [discriminate|]. exists rb. split; [reflexivity|lia].
   - cbn [rd_sym]. destruct (too_large max (S cnt)); [exact I|]. exact H.
 Qed.
 
@@ -183,6 +194,15 @@ Proof. unfold dead. intros -> [H _]. discriminate. Qed.
 
 Ltac inv_some := match goal with H : Some _ = Some _ |- _ => injection H as <- end.
 
+Lemma rd_sym_fail_not_ok max skip stream p sy e : rd_sym max skip stream p sy = RFail e -> e <> OOk.
+Proof.
+  unfold rd_sym, after_head. intros H Heq. subst e.
+  repeat match type of H with
+         | context [match ?c with _ => _ end] => destruct c
+         | context [if ?c then _ else _] => destruct c
+         end; discriminate.
+Qed.
+
 (* LRead *)
 Lemma read_inv s t x p k tg sy rest :
   Inv s -> s_thr s t = TRun x p k -> c_inb k = (tg, sy) :: rest -> is_stream_phase p = false -> p <> PAcq ->
@@ -199,7 +219,7 @@ Proof.
   pose proof (pend_set_inb _ _ _ Hinb) as Hpend. fold k1 in Hpend.
   assert (Hfail : forall e, e <> OOk -> Inv (set_thr s t (TDone x1 e false))).
   { intros e He. apply inv_set_thr0; [exact HI|]. destruct e; try exact I. congruence. }
-  destruct p as [ | |n|cnt|cnt| |n e|e|e]; try discriminate; try congruence.
+  destruct p as [ | |n|cnt|cnt n|cnt| |n e|n e|e]; try discriminate; try congruence.
   - (* PHead *)
     destruct Ht as [Hgot [[Hout Hq]|[Hout [r (Ha & Hwf & Heq)]]]].
     { destruct Hq as [Hq _]. congruence. }
@@ -234,10 +254,10 @@ Proof.
     destruct (rd_sym _ _ _ _ _) as [p1|body|e] eqn:Hrd.
     + apply inv_set_thr0; [exact HI|]. cbn. split; [exact Hsafe|].
       apply (ph_ok_mono _ _ _ (dead k1)) in Hb; [|intros Hd; exfalso; eapply not_dead_inb; eauto].
-      destruct p1; cbn in Hb; try contradiction; (split; [exact Hout|]); exists r; (split; [exact Hans1|]); (split; [exact Hh|]); (split; [exact Hnw|]); exact Hb.
+      destruct p1 as [ | | | | | | | |[|?] ?| ]; cbn in Hb; try contradiction; (split; [exact Hout|]); exists r; (split; [exact Hans1|]); (split; [exact Hh|]); (split; [exact Hnw|]); exact Hb.
     + destruct Hb as [Hnil ->]. apply finish_inv with (r := r); auto.
-    + apply Hfail. cbn in Hrd. destruct n as [|[|?]]; congruence.
-  - (* PBodyChunked *)
+    + apply Hfail. eapply rd_sym_fail_not_ok; eauto.
+  - (* PChunkSize *)
     destruct Ht as [Hout [r ((Ha & Hwf & Heq) & Hh & Hnw & Hph)]]. rewrite Hpend in Hph, Heq.
     pose proof (rd_body_ok t (s_max s) (eff_skip (x_opts x)) _ _ _ r tg sy (pend k1) Hph eq_refl) as Hb.
     assert (Hans1 : answered (s_ans s t) t x1 (pend k1) r).
@@ -245,9 +265,20 @@ Proof.
     destruct (rd_sym _ _ _ _ _) as [p1|body|e] eqn:Hrd.
     + apply inv_set_thr0; [exact HI|]. cbn. split; [exact Hsafe|].
       apply (ph_ok_mono _ _ _ (dead k1)) in Hb; [|intros Hd; exfalso; eapply not_dead_inb; eauto].
-      destruct p1; cbn in Hb; try contradiction; (split; [exact Hout|]); exists r; (split; [exact Hans1|]); (split; [exact Hh|]); (split; [exact Hnw|]); exact Hb.
+      destruct p1 as [ | | | | | | | |[|?] ?| ]; cbn in Hb; try contradiction; (split; [exact Hout|]); exists r; (split; [exact Hans1|]); (split; [exact Hh|]); (split; [exact Hnw|]); exact Hb.
     + destruct Hb as [Hnil ->]. apply finish_inv with (r := r); auto.
-    + apply Hfail. cbn in Hrd. destruct sy; try destruct (too_large _ _); congruence.
+    + apply Hfail. eapply rd_sym_fail_not_ok; eauto.
+  - (* PChunkData *)
+    destruct Ht as [Hout [r ((Ha & Hwf & Heq) & Hh & Hnw & Hph)]]. rewrite Hpend in Hph, Heq.
+    pose proof (rd_body_ok t (s_max s) (eff_skip (x_opts x)) _ _ _ r tg sy (pend k1) Hph eq_refl) as Hb.
+    assert (Hans1 : answered (s_ans s t) t x1 (pend k1) r).
+    { split; [exact Ha|]. split; [exact Hwf|]. subst x1. cbn [x_got x_opts add_got]. rewrite <- app_assoc. exact Heq. }
+    destruct (rd_sym _ _ _ _ _) as [p1|body|e] eqn:Hrd.
+    + apply inv_set_thr0; [exact HI|]. cbn. split; [exact Hsafe|].
+      apply (ph_ok_mono _ _ _ (dead k1)) in Hb; [|intros Hd; exfalso; eapply not_dead_inb; eauto].
+      destruct p1 as [ | | | | | | | |[|?] ?| ]; cbn in Hb; try contradiction; (split; [exact Hout|]); exists r; (split; [exact Hans1|]); (split; [exact Hh|]); (split; [exact Hnw|]); exact Hb.
+    + destruct Hb as [Hnil ->]. apply finish_inv with (r := r); auto.
+    + apply Hfail. eapply rd_sym_fail_not_ok; eauto.
   - (* PBodyIdent *)
     destruct Ht as [Hout [r ((Ha & Hwf & Heq) & Hh & Hnw & Hph)]]. rewrite Hpend in Hph, Heq.
     pose proof (rd_body_ok t (s_max s) (eff_skip (x_opts x)) _ _ _ r tg sy (pend k1) Hph eq_refl) as Hb.
@@ -256,9 +287,9 @@ Proof.
     destruct (rd_sym _ _ _ _ _) as [p1|body|e] eqn:Hrd.
     + apply inv_set_thr0; [exact HI|]. cbn. split; [exact Hsafe|].
       apply (ph_ok_mono _ _ _ (dead k1)) in Hb; [|intros Hd; exfalso; eapply not_dead_inb; eauto].
-      destruct p1; cbn in Hb; try contradiction; (split; [exact Hout|]); exists r; (split; [exact Hans1|]); (split; [exact Hh|]); (split; [exact Hnw|]); exact Hb.
+      destruct p1 as [ | | | | | | | |[|?] ?| ]; cbn in Hb; try contradiction; (split; [exact Hout|]); exists r; (split; [exact Hans1|]); (split; [exact Hh|]); (split; [exact Hnw|]); exact Hb.
     + destruct Hb as [Hnil ->]. apply finish_inv with (r := r); auto.
-    + apply Hfail. cbn in Hrd. destruct (too_large _ _); congruence.
+    + apply Hfail. eapply rd_sym_fail_not_ok; eauto.
 Qed.
 
 (* a server step changes a connection without changing what the client will see *)
@@ -270,6 +301,7 @@ Proof.
   destruct p; rewrite ?Ho, ?Hp.
   - destruct H as [[H1 H2] H3]. split; [split; [congruence|auto]|exact H3].
   - destruct H as [Hg [[H1 H2]|H]]; (split; [exact Hg|]); [left; split; [congruence|auto]|right; exact H].
+  - destruct H as [H1 [r (Ha & Hh & Hn & Hph)]]. split; [exact H1|]. exists r. repeat (split; [assumption|]). eapply ph_ok_mono; eauto.
   - destruct H as [H1 [r (Ha & Hh & Hn & Hph)]]. split; [exact H1|]. exists r. repeat (split; [assumption|]). eapply ph_ok_mono; eauto.
   - destruct H as [H1 [r (Ha & Hh & Hn & Hph)]]. split; [exact H1|]. exists r. repeat (split; [assumption|]). eapply ph_ok_mono; eauto.
   - destruct H as [H1 [r (Ha & Hh & Hn & Hph)]]. split; [exact H1|]. exists r. repeat (split; [assumption|]). eapply ph_ok_mono; eauto.
@@ -298,6 +330,7 @@ Proof.
   intros [Hsafe H] Hne. destruct p.
   - destruct H as [[H _] _]. contradiction.
   - destruct H as [Hg [[H1 H2]|[H1 _]]]; [auto|contradiction].
+  - destruct H as [H _]. contradiction.
   - destruct H as [H _]. contradiction.
   - destruct H as [H _]. contradiction.
   - destruct H as [H _]. contradiction.
@@ -568,15 +601,6 @@ Proof. induction l as [|it l IH]; intros s HD; cbn; [exact HD|]. apply IH, doneo
 
 Lemma drain_fields l : forall s, p_conn (p_drain s l) = p_conn s /\ p_wr (p_drain s l) = p_wr s /\ p_rd (p_drain s l) = p_rd s.
 Proof. induction l as [|it l IH]; intros s; cbn; [auto|]. destruct (IH (p_set_done s it OErr [])) as (-> & -> & ->). auto. Qed.
-
-Lemma rd_sym_fail_not_ok max skip stream p sy e : rd_sym max skip stream p sy = RFail e -> e <> OOk.
-Proof.
-  unfold rd_sym, after_head. intros H Heq. subst e.
-  repeat match type of H with
-         | context [match ?c with _ => _ end] => destruct c
-         | context [if ?c then _ else _] => destruct c
-         end; discriminate.
-Qed.
 
 Lemma wires_app A1 A2 : wires (A1 ++ A2) = wires A1 ++ wires A2.
 Proof. unfold wires. rewrite map_app, concat_app. reflexivity. Qed.
